@@ -170,7 +170,7 @@ func ladder(c *explore.Ctx) {
 // toplevel: values that are themselves Message / custom implementations or scalars.
 func toplevel(c *explore.Ctx) {
 	data := [][]byte{nil, {}, {8, 1}, make([]byte, 127), make([]byte, 128), make([]byte, 300)}[c.Choose(6)]
-	k := c.Choose(9)
+	k := c.Choose(13)
 	var val any
 	var name string
 	switch k {
@@ -178,6 +178,14 @@ func toplevel(c *explore.Ctx) {
 		val, name = &pgen.GogoCustom{Data: data}, "*GogoCustom (gogoproto-style MarshalTo)"
 	case 8:
 		val, name = struct{ G *pgen.GogoCustom }{&pgen.GogoCustom{Data: data}}, "struct with a *GogoCustom field"
+	case 9:
+		val, name = pgen.LeafBox{P: &pgen.LeafPayload{Data: data}}, "LeafBox (pointer-shaped Message by value)"
+	case 10:
+		val, name = &pgen.LeafBox{P: &pgen.LeafPayload{Data: data}}, "*LeafBox"
+	case 11:
+		val, name = pgen.LeafBoxCustom{P: &pgen.LeafPayload{Data: data}}, "LeafBoxCustom (pointer-shaped custom message by value)"
+	case 12:
+		val, name = struct{ B pgen.LeafBox }{pgen.LeafBox{P: &pgen.LeafPayload{Data: data}}}, "struct with a LeafBox field, by value"
 	case 0:
 		val, name = proto.RawMessage(data), "RawMessage"
 	case 1:
